@@ -71,4 +71,30 @@ namespace rkverif {
     (void)(*b).payload;
     (void)static_cast<bool>(a);
   }
+
+  // multiple inheritance with the ref-counted base at a non-zero offset
+  struct Named
+  {
+    virtual ~Named() = default;
+    int name{0};
+  };
+  struct NamedLeaf : public Named, public Base
+  {
+    int leaf{0};
+  };
+
+  // comparisons between handles of different related static types: whatever overload resolution selects for them is what
+  // rules/C08.py analyses (R-C08-5: must be a handle comparison, not the built-in comparison of two operator bool() results;
+  // R-C08-3: that function decides object identity on typed pointers)
+  inline void mixed_compare(const IntrusivePtr<Base> &b, const IntrusivePtr<Derived> &d, const IntrusivePtr<NamedLeaf> &n)
+  {
+    (void)(b == d);
+    (void)(d == b);
+    (void)(b != d);
+    (void)(d != b);
+    (void)(b == n);
+    (void)(n == b);
+    (void)(b != n);
+    (void)(n != b);
+  }
 }  // namespace rkverif
